@@ -51,6 +51,8 @@ struct GcBox<T: GcManaged + ?Sized> {
     colour: Cell<Colour>,
     num_roots: Cell<usize>,
     _pin: PhantomPinned,
+    #[cfg(feature = "verif_hooks")]
+    verif_meta: verif::Meta,
     pub(crate) data: T,
 }
 
@@ -122,6 +124,8 @@ impl<T: 'static + GcManaged + ?Sized> Root<T> {
 
 impl<T: GcManaged + ?Sized> Root<T> {
     fn gc_box(&self) -> &GcBox<T> {
+        #[cfg(feature = "verif_hooks")]
+        verif::on_deref(unsafe { &self.ptr.as_ref().verif_meta });
         unsafe { self.ptr.as_ref() }
     }
 
@@ -218,6 +222,8 @@ impl<T: 'static + GcManaged + ?Sized> UniqueRoot<T> {
 
 impl<T: GcManaged + ?Sized> UniqueRoot<T> {
     fn gc_box(&self) -> &GcBox<T> {
+        #[cfg(feature = "verif_hooks")]
+        verif::on_deref(unsafe { &self.ptr.as_ref().verif_meta });
         unsafe { self.ptr.as_ref() }
     }
 
@@ -286,6 +292,8 @@ impl<T: 'static + GcManaged> Gc<T> {
 
 impl<T: 'static + GcManaged + ?Sized> Gc<T> {
     fn gc_box(&self) -> &GcBox<T> {
+        #[cfg(feature = "verif_hooks")]
+        verif::on_deref(unsafe { &self.ptr.as_ref().verif_meta });
         unsafe { self.ptr.as_ref() }
     }
 }
@@ -365,6 +373,8 @@ impl Heap {
             colour: Cell::new(Colour::White),
             num_roots: Cell::new(0),
             _pin: PhantomPinned,
+            #[cfg(feature = "verif_hooks")]
+            verif_meta: verif::Meta::new(any::type_name::<T>(), mem::size_of::<T>()),
             data,
         });
 
@@ -374,6 +384,8 @@ impl Heap {
         let size = mem::size_of::<T>();
 
         self.bytes_allocated += size;
+        #[cfg(feature = "verif_hooks")]
+        verif::on_alloc(size);
 
         if cfg!(feature = "debug_trace_gc") {
             let new_ptr = self.objects.last().unwrap();
@@ -389,6 +401,10 @@ impl Heap {
     }
 
     fn collect(&mut self) {
+        #[cfg(feature = "verif_hooks")]
+        if !verif::should_collect() {
+            return;
+        }
         if cfg!(feature = "debug_trace_gc") {
             println!("-- gc begin")
         }
@@ -396,6 +412,8 @@ impl Heap {
         self.mark_roots();
         self.trace_references();
         let bytes_freed = self.sweep();
+        #[cfg(feature = "verif_hooks")]
+        verif::on_collected(&self.objects);
 
         let prev_bytes_allocated = self.bytes_allocated;
         self.bytes_allocated -= bytes_freed;
@@ -455,6 +473,8 @@ impl Heap {
             })
             .sum();
 
+        #[cfg(feature = "verif_hooks")]
+        verif::quarantine_whites(&mut self.objects);
         self.objects.retain(|obj| obj.colour.get() == Colour::Black);
 
         bytes_marked
@@ -520,5 +540,281 @@ impl<T: GcManaged> GcManaged for &[T] {
         for i in 0..self.len() {
             self[i].blacken();
         }
+    }
+}
+
+/// Verification hooks (feature `verif_hooks`): collection scheduling, a quarantine that keeps swept
+/// objects readable and records any later dereference of them, and heap accounting that does not
+/// depend on `Heap::bytes_allocated`. None of this is compiled without the feature.
+#[cfg(feature = "verif_hooks")]
+pub mod verif {
+    use std::cell::{Cell, RefCell};
+    use std::collections::BTreeMap;
+    use std::mem;
+    use std::pin::Pin;
+
+    use super::{Colour, GcBox, GcManaged, HEAP};
+
+    pub struct Meta {
+        pub(super) freed: Cell<bool>,
+        pub(super) type_name: &'static str,
+        pub(super) size: usize,
+    }
+
+    impl Meta {
+        pub(super) fn new(type_name: &'static str, size: usize) -> Self {
+            Meta {
+                freed: Cell::new(false),
+                type_name,
+                size,
+            }
+        }
+    }
+
+    #[derive(Clone, Copy, Debug, PartialEq)]
+    pub enum GcMode {
+        /// Whatever the build configuration does by itself.
+        Default,
+        /// `collect()` returns immediately.
+        Never,
+        /// Collect on the allocations whose bit is set in the schedule (cyclic); others are skipped.
+        Schedule,
+    }
+
+    #[derive(Clone, Debug)]
+    pub struct Event {
+        pub type_name: &'static str,
+        pub during_gc: bool,
+    }
+
+    #[derive(Clone, Copy, Debug)]
+    pub enum Trace {
+        /// (size of the allocation, hook-maintained heap bytes before it)
+        Alloc(usize, usize),
+        /// (heap bytes before the collection, heap bytes after, recomputed from the object list)
+        Collect(usize, usize),
+    }
+
+    struct State {
+        mode: GcMode,
+        schedule: Vec<u8>,
+        schedule_pos: usize,
+        forcing: bool,
+        in_gc: bool,
+        quarantine_on: bool,
+        events: Vec<Event>,
+        event_count: usize,
+        quarantine: Vec<Pin<Box<GcBox<dyn GcManaged>>>>,
+        swept_objects: usize,
+        collections: usize,
+        heap_bytes: usize,
+        trace_on: bool,
+        trace: Vec<Trace>,
+    }
+
+    thread_local! {
+        static STATE: RefCell<State> = RefCell::new(State {
+            mode: GcMode::Default,
+            schedule: Vec::new(),
+            schedule_pos: 0,
+            forcing: false,
+            in_gc: false,
+            quarantine_on: false,
+            events: Vec::new(),
+            event_count: 0,
+            quarantine: Vec::new(),
+            swept_objects: 0,
+            collections: 0,
+            heap_bytes: 0,
+            trace_on: false,
+            trace: Vec::new(),
+        });
+    }
+
+    pub fn set_gc_mode(mode: GcMode) {
+        STATE.with(|s| s.borrow_mut().mode = mode);
+    }
+
+    pub fn set_schedule(bits: Vec<u8>) {
+        STATE.with(|s| {
+            let mut s = s.borrow_mut();
+            s.schedule = bits;
+            s.schedule_pos = 0;
+        });
+    }
+
+    pub fn set_quarantine(on: bool) {
+        STATE.with(|s| s.borrow_mut().quarantine_on = on);
+    }
+
+    pub fn set_trace(on: bool) {
+        STATE.with(|s| {
+            let mut s = s.borrow_mut();
+            s.trace_on = on;
+            s.trace.clear();
+        });
+    }
+
+    pub fn take_trace() -> Vec<Trace> {
+        STATE.with(|s| mem::take(&mut s.borrow_mut().trace))
+    }
+
+    /// Events recorded since the last call (at most 64 are kept) and their total number.
+    pub fn take_events() -> (Vec<Event>, usize) {
+        STATE.with(|s| {
+            let mut s = s.borrow_mut();
+            let n = mem::replace(&mut s.event_count, 0);
+            (mem::take(&mut s.events), n)
+        })
+    }
+
+    /// (collections run, objects swept) since the last call.
+    pub fn take_counters() -> (usize, usize) {
+        STATE.with(|s| {
+            let mut s = s.borrow_mut();
+            (
+                mem::replace(&mut s.collections, 0),
+                mem::replace(&mut s.swept_objects, 0),
+            )
+        })
+    }
+
+    /// Runs a collection now, whatever the mode.
+    pub fn force_collect() {
+        STATE.with(|s| s.borrow_mut().forcing = true);
+        HEAP.with(|heap| heap.borrow_mut().collect());
+        STATE.with(|s| s.borrow_mut().forcing = false);
+    }
+
+    /// Really frees everything held in quarantine.
+    pub fn purge() {
+        let q = STATE.with(|s| mem::take(&mut s.borrow_mut().quarantine));
+        drop(q);
+    }
+
+    /// Number of live objects per type name and their summed shallow sizes, from the object list.
+    pub fn census() -> (BTreeMap<&'static str, usize>, usize) {
+        HEAP.with(|heap| {
+            let heap = heap.borrow();
+            let mut map = BTreeMap::new();
+            let mut bytes = 0;
+            for obj in heap.objects.iter() {
+                *map.entry(obj.verif_meta.type_name).or_insert(0) += 1;
+                bytes += obj.verif_meta.size;
+            }
+            (map, bytes)
+        })
+    }
+
+    /// Number of live objects with a non-zero root count, per type name.
+    pub fn rooted_census() -> BTreeMap<&'static str, usize> {
+        HEAP.with(|heap| {
+            let heap = heap.borrow();
+            let mut map = BTreeMap::new();
+            for obj in heap.objects.iter() {
+                if obj.num_roots.get() > 0 {
+                    *map.entry(obj.verif_meta.type_name).or_insert(0) += 1;
+                }
+            }
+            map
+        })
+    }
+
+    /// The collector's own view: (bytes_allocated, collection_threshold).
+    pub fn heap_counters() -> (usize, usize) {
+        HEAP.with(|heap| {
+            let heap = heap.borrow();
+            (heap.bytes_allocated, heap.collection_threshold)
+        })
+    }
+
+    #[inline]
+    pub(super) fn on_deref(meta: &Meta) {
+        if meta.freed.get() {
+            STATE.with(|s| {
+                if let Ok(mut s) = s.try_borrow_mut() {
+                    s.event_count += 1;
+                    if s.events.len() < 64 {
+                        let during_gc = s.in_gc;
+                        s.events.push(Event {
+                            type_name: meta.type_name,
+                            during_gc,
+                        });
+                    }
+                }
+            });
+        }
+    }
+
+    pub(super) fn on_alloc(size: usize) {
+        STATE.with(|s| {
+            let mut s = s.borrow_mut();
+            if s.trace_on {
+                let before = s.heap_bytes;
+                s.trace.push(Trace::Alloc(size, before));
+            }
+            s.heap_bytes += size;
+        });
+    }
+
+    pub(super) fn should_collect() -> bool {
+        STATE.with(|s| {
+            let mut s = s.borrow_mut();
+            let go = if s.forcing {
+                true
+            } else {
+                match s.mode {
+                    GcMode::Default => true,
+                    GcMode::Never => false,
+                    GcMode::Schedule => {
+                        if s.schedule.is_empty() {
+                            false
+                        } else {
+                            let pos = s.schedule_pos;
+                            s.schedule_pos = pos + 1;
+                            let byte = s.schedule[(pos / 8) % s.schedule.len()];
+                            (byte >> (pos % 8)) & 1 == 1
+                        }
+                    }
+                }
+            };
+            if go {
+                s.in_gc = true;
+            }
+            go
+        })
+    }
+
+    pub(super) fn quarantine_whites(objects: &mut Vec<Pin<Box<GcBox<dyn GcManaged>>>>) {
+        STATE.with(|s| {
+            let mut s = s.borrow_mut();
+            let mut kept = Vec::with_capacity(objects.len());
+            for obj in objects.drain(..) {
+                if obj.colour.get() == Colour::White {
+                    s.swept_objects += 1;
+                    if s.quarantine_on {
+                        obj.verif_meta.freed.set(true);
+                        s.quarantine.push(obj);
+                        continue;
+                    }
+                }
+                kept.push(obj);
+            }
+            *objects = kept;
+        });
+    }
+
+    pub(super) fn on_collected(objects: &[Pin<Box<GcBox<dyn GcManaged>>>]) {
+        let after: usize = objects.iter().map(|o| o.verif_meta.size).sum();
+        STATE.with(|s| {
+            let mut s = s.borrow_mut();
+            s.collections += 1;
+            s.in_gc = false;
+            let before = s.heap_bytes;
+            s.heap_bytes = after;
+            if s.trace_on {
+                s.trace.push(Trace::Collect(before, after));
+            }
+        });
     }
 }
